@@ -648,7 +648,12 @@ func genAmqpConv(r *Rand, tier string, emit func(sx.Sx)) {
 		n := 1 + r.Intn(5)
 		for j := 0; j < n; j++ {
 			ch := 1 + r.Intn(3)
-			switch r.Intn(9) {
+			switch r.Intn(10) {
+			case 9: // two contents on two channels, their frames interleaved (AMQP multiplexes channels)
+				ch2 := ch%3 + 1
+				b1, b2 := r.Bytes(1+r.Intn(12)), r.Bytes(1+r.Intn(12))
+				c1, c2 := content(ch, b1, 1), content(ch2, b2, 1)
+				cf = append(cf, mf(ch, findMethod(ms, 60, 40)), mf(ch2, findMethod(ms, 60, 40)), c1[0], c2[0], c1[1], c2[1])
 			case 8: // content of a method the dissector does not report (basic.return, basic.get-ok), often
 				// right after a reported content on the same channel
 				if r.Chance(60) {
